@@ -136,7 +136,11 @@ def rop_term(op, st):
 
 def rcreated_term(case, step0):
     nt, bo = dt_info(case['dtype'])
-    subs = "[" + "; ".join(rows_term(_rows_of_ref(r, case)) for r in step0['ref']) + "]"
+    refs = step0['ref']
+    if len(refs) >= 64 and all(r['shape'][0] == 0 for r in refs):
+        subs = f"(repeat [] (Z.to_nat {len(refs)}))"
+    else:
+        subs = "[" + "; ".join(rows_term(_rows_of_ref(r, case)) for r in refs) + "]"
     meta = bool(case.get('metadata'))
     return (f"(rcreate {NT_COQ[nt]} {BO_COQ[bo]} {czl(case['atom'])} {NT_COQ[case['indextype']]} "
             f"{subs} {MODE_COQ[case['mode']]} {cbool(meta)})")
@@ -365,3 +369,17 @@ def rhistory_case(rng, nt, bo, atom, indextype, sublens, letters, mode='r+', met
     c['sublens'] = sublens
     c['ops'] = [mk_rop(l, rng, nt, bo, atom) for l in letters]
     return c
+
+
+def adir_term(f):
+    """observed sub-array files -> mkDir term (README not needed by the readers)"""
+    d = f['descr']
+    ds = (f"(Val (mkDescr {NT_COQ[d['numtype']]} {BO_COQ[d['byteorder']]} {czl(d['shape'])} "
+          f"{'OrdC' if d['arrayorder'] == 'C' else 'OrdF'}))")
+    return f"(mkDir (Some {czl_rle(hexl(f['data']))}) {ds} Absent false)"
+
+
+def rdir_term(st):
+    d = st['top']['descr']
+    td = (f"(Val (mkRDescr {cz(d['len'])} {cz(d['size'])} {czl(d['atom'])} {NT_COQ[d['numtype']]}))")
+    return f"(mkRDir {adir_term(st['values'])} {adir_term(st['indices'])} {td} Absent false)"
